@@ -64,11 +64,14 @@ structure SeqInv (s : St) : Prop where
 
 /-- what makes a history *sequential*: a generator is advanced only while no other one is
     suspended; `cache_clear()` only while none is suspended; no `attrs` name whose getter starts
-    with `_raise_if_pid_reused()`; the process table is not empty when psutil lists it -/
+    with `_raise_if_pid_reused()`; the process table is not empty when psutil lists it; and — for
+    the order of the current code, which takes the set differences before draining
+    `_pids_reused` (lead L19) — no PID is flagged at the moment an iteration starts -/
 def OpOK (cfg : Cfg) (s : St) : Op → Prop
   | .next g _ =>
     (∀ (j : Nat) (gen : Gen), j ≠ g → s.gens[j]? = some gen → isRun gen = false)
-    ∧ (∀ gen, s.gens[g]? = some gen → NoReuse cfg gen.attrs ∧ (gen.st = .fresh → s.k.procs ≠ []))
+    ∧ (∀ gen, s.gens[g]? = some gen → NoReuse cfg gen.attrs
+        ∧ (gen.st = .fresh → s.k.procs ≠ [] ∧ (cfg.drainFirst = true ∨ s.flagged = [])))
   | .cacheClear => ∀ (j : Nat) (gen : Gen), s.gens[j]? = some gen → isRun gen = false
   | .pids => s.k.procs ≠ []
   | .pidExists _ => s.k.procs ≠ []
@@ -218,7 +221,7 @@ theorem seqInv_after_visit {s' : St} {g : Nat} (hi : Inv s')
       simp [isRun, hst] at this
 
 /-- `next(g)` in a sequential state -/
-theorem next_sim (cfg : Cfg) (hd : cfg.drainFirst = true) (s : St) (hi : SeqInv s) (g : Nat) (mid : List KEv)
+theorem next_sim (cfg : Cfg) (s : St) (hi : SeqInv s) (g : Nat) (mid : List KEv)
     (hok : OpOK cfg s (.next g mid)) :
     sstep cfg.validNames cfg.noAccessAttrs (abs s) (.next g mid)
       = (abs (genNext cfg s g mid).1, some (genNext cfg s g mid).2)
@@ -279,7 +282,8 @@ theorem next_sim (cfg : Cfg) (hd : cfg.drainFirst = true) (s : St) (hi : SeqInv 
       simp only [absGen, hst]
       rw [hst] at gs
       simp only at gs
-      have hne := (hgen gen hg).2 hst
+      have hne := ((hgen gen hg).2 hst).1
+      have hd := ((hgen gen hg).2 hst).2
       have hall : ∀ (j : Nat) (gen' : Gen), s.gens[j]? = some gen' → isRun gen' = false := by
         intro j gen' hj
         by_cases hjg : j = g
@@ -366,7 +370,7 @@ theorem abs_objs_get (s : St) (r : Ref) : (abs s).objs[r]? = (s.objs[r]?).map ab
   simp [abs]
 
 /-- one operation of a sequential history commutes with the specification machine -/
-theorem step_sim (cfg : Cfg) (hd : cfg.drainFirst = true) (hr : cfg.rangeGuard = true)
+theorem step_sim (cfg : Cfg) (hr : cfg.rangeGuard = true)
     (s : St) (hi : SeqInv s) (op : Op) (hok : OpOK cfg s op) :
     sstep cfg.validNames cfg.noAccessAttrs (abs s) op = (abs (step cfg s op).1, some (step cfg s op).2)
     ∧ SeqInv (step cfg s op).1 := by
@@ -444,7 +448,7 @@ theorem step_sim (cfg : Cfg) (hd : cfg.drainFirst = true) (hr : cfg.rangeGuard =
           subst hgi; cases hst
         | succ k => rw [hidx] at hgi; simp at hgi
   | next g mid =>
-    exact next_sim cfg hd s hi g mid hok
+    exact next_sim cfg s hi g mid hok
   | close g =>
     simp only [step, genClose] at hinv ⊢
     simp only [sstep]
@@ -600,7 +604,7 @@ def SeqHist (cfg : Cfg) : St → List Op → Prop
   | _, [] => True
   | s, op :: ops => OpOK cfg s op ∧ SeqHist cfg (step cfg s op).1 ops
 
-theorem trace_sim (cfg : Cfg) (hd : cfg.drainFirst = true) (hr : cfg.rangeGuard = true) (h : List Op) :
+theorem trace_sim (cfg : Cfg) (hr : cfg.rangeGuard = true) (h : List Op) :
     ∀ (s : St), SeqInv s → SeqHist cfg s h →
       strace cfg.validNames cfg.noAccessAttrs (abs s) h = (trace cfg s h).map some := by
   induction h with
@@ -608,7 +612,7 @@ theorem trace_sim (cfg : Cfg) (hd : cfg.drainFirst = true) (hr : cfg.rangeGuard 
   | cons op ops ih =>
     intro s hi hs
     obtain ⟨hok, hrest⟩ := hs
-    have st := step_sim cfg hd hr s hi op hok
+    have st := step_sim cfg hr s hi op hok
     simp only [strace, trace, List.map_cons]
     rw [st.1]
     simp only
